@@ -770,6 +770,55 @@ theorem builder_complete_nested (v : Variant) (env : Env) (a : Kvs) (r : Cfg) :
     obtain ⟨dk, tk, e1, e2, e3⟩ := mk_keys hpre
     exact ⟨pre, dk, tk, mk_get hr hnd (v := pre) (by simp), e1, e2, e3⟩
 
+/-! ## `train()` -/
+
+/-- **the configuration `train()` hands to `run_training` is the composition of the three builders
+on the same argument record** — each section is exactly what the corresponding builder returns,
+every other top-level field (`name`, `description`, `sleap_nn_version`, `filename`) is the schema
+default, and the key set is `TrainingJobConfig`'s.  (Definitional for the model; it is the
+obligation the `train` correspondence checks against the real entry point, which is where a
+rewritten argument — `max_width=max_width if … else max_height` — shows.)  Together with
+`builder_places_args` / `builder_defaults` it gives, per field: a passed argument is found at its
+place, a field no parameter reaches has the schema default; a parameter that is not passed takes
+the builder's documented default, which is pinned in the harness (`DOC_DEFAULTS`), not in Lean. -/
+theorem train_cfg_eq_builders {env : Env} {a : Kvs} {r : Cfg} (h : trainCfg env a = .ok r) :
+    ∃ d m t, getDataConfig .fixed env a = .ok d ∧ getModelConfig env a = .ok m ∧
+      getTrainerConfig env a = .ok t ∧
+      getPath ["data_config"] r = some d ∧ getPath ["model_config"] r = some m ∧
+      getPath ["trainer_config"] r = some t ∧
+      (∀ k, k ∉ ["data_config", "model_config", "trainer_config"] →
+        getPath [k] r = getPath [k] (env.cls "TrainingJobConfig")) ∧
+      ∃ dk rk, env.cls "TrainingJobConfig" = .node dk ∧ r = .node rk ∧ keys rk = keys dk := by
+  unfold trainCfg at h
+  split at h
+  · cases h
+  rename_i d hd
+  split at h
+  · cases h
+  rename_i m hm
+  split at h
+  · cases h
+  rename_i t ht
+  split at h
+  · cases h
+  rename_i r' hr
+  split at h
+  · cases h
+  split at h
+  · cases h
+  simp only [Except.ok.injEq] at h
+  subst h
+  have hnd : (keys [("data_config", d), ("model_config", m), ("trainer_config", t)]).Nodup := by
+    simp only [keys, List.map_cons, List.map_nil]; decide
+  exact ⟨d, m, t, hd, hm, ht, mk_get hr hnd (by simp), mk_get hr hnd (by simp), mk_get hr hnd (by simp),
+    fun k hk => mk_other hr (by simpa [keys] using hk), mk_keys hr⟩
+
+example : (trainCfg exEnv (exDataArgs ++ exModelArgs ++ exTrainerArgs)).toBool = true ∧
+    isInt 8 (pathOf (trainCfg exEnv (exDataArgs ++ exModelArgs ++ exTrainerArgs))
+      ["model_config", "backbone_config", "unet", "filters"]) = true ∧
+    isInt 4 (pathOf (trainCfg exEnv (exDataArgs ++ exModelArgs ++ exTrainerArgs))
+      ["trainer_config", "train_data_loader", "batch_size"]) = true := by decide
+
 /-! ### non-vacuity: an environment (real field names) on which every builder succeeds, and what comes out -/
 
 example : (getTrainerConfig exEnv exTrainerArgs).toBool = true := by decide
